@@ -640,24 +640,34 @@ Definition go_client_Line_argslen (line_Args : list bytes) (minlen : Z) : res bo
   else
     Ok true.
 
-(* type Nick struct { Nick, Ident, Host, Name, Modes, Channels }: the fields Nick, Ident, Host, Name; a *Nick is an option (None = nil) *)
-Definition go_state_Nick : Type := (bytes * bytes * bytes * bytes)%type.
+Section WithTracker.
+
+(* type Nick struct { Nick, Ident, Host, Name, Modes, Channels }: the fields Nick, Ident, Host, Name and one abstract component for the others; a *Nick is an option (None = nil) *)
+Context {go_state_Nick_rest : Type}.
+Variable go_state_Nick_rest_eqb : go_state_Nick_rest -> go_state_Nick_rest -> bool.
+Definition go_state_Nick : Type := (bytes * bytes * bytes * bytes * go_state_Nick_rest)%type.
 Definition go_state_Nick_get_Nick (p : option go_state_Nick) : res bytes :=
-  match p with Some (x1, x2, x3, x4) => Ok x1 | None => Panic end.
+  match p with Some (x1, x2, x3, x4, xr) => Ok x1 | None => Panic end.
 Definition go_state_Nick_set_Nick (p : option go_state_Nick) (v : bytes) : res (option go_state_Nick) :=
-  match p with Some (x1, x2, x3, x4) => Ok (Some (v, x2, x3, x4)) | None => Panic end.
+  match p with Some (x1, x2, x3, x4, xr) => Ok (Some (v, x2, x3, x4, xr)) | None => Panic end.
 Definition go_state_Nick_get_Ident (p : option go_state_Nick) : res bytes :=
-  match p with Some (x1, x2, x3, x4) => Ok x2 | None => Panic end.
+  match p with Some (x1, x2, x3, x4, xr) => Ok x2 | None => Panic end.
 Definition go_state_Nick_set_Ident (p : option go_state_Nick) (v : bytes) : res (option go_state_Nick) :=
-  match p with Some (x1, x2, x3, x4) => Ok (Some (x1, v, x3, x4)) | None => Panic end.
+  match p with Some (x1, x2, x3, x4, xr) => Ok (Some (x1, v, x3, x4, xr)) | None => Panic end.
 Definition go_state_Nick_get_Host (p : option go_state_Nick) : res bytes :=
-  match p with Some (x1, x2, x3, x4) => Ok x3 | None => Panic end.
+  match p with Some (x1, x2, x3, x4, xr) => Ok x3 | None => Panic end.
 Definition go_state_Nick_set_Host (p : option go_state_Nick) (v : bytes) : res (option go_state_Nick) :=
-  match p with Some (x1, x2, x3, x4) => Ok (Some (x1, x2, v, x4)) | None => Panic end.
+  match p with Some (x1, x2, x3, x4, xr) => Ok (Some (x1, x2, v, x4, xr)) | None => Panic end.
 Definition go_state_Nick_get_Name (p : option go_state_Nick) : res bytes :=
-  match p with Some (x1, x2, x3, x4) => Ok x4 | None => Panic end.
+  match p with Some (x1, x2, x3, x4, xr) => Ok x4 | None => Panic end.
 Definition go_state_Nick_set_Name (p : option go_state_Nick) (v : bytes) : res (option go_state_Nick) :=
-  match p with Some (x1, x2, x3, x4) => Ok (Some (x1, x2, x3, v)) | None => Panic end.
+  match p with Some (x1, x2, x3, x4, xr) => Ok (Some (x1, x2, x3, v, xr)) | None => Panic end.
+Definition go_state_Nick_eqb (p q : option go_state_Nick) : bool :=
+  match p, q with
+  | Some (x1, x2, x3, x4, xr), Some (y1, y2, y3, y4, yr) => beq x1 y1 && beq x2 y2 && beq x3 y3 && beq x4 y4 && go_state_Nick_rest_eqb xr yr
+  | None, None => true
+  | _, _ => false
+  end.
 
 (* type ChanPrivs struct { Owner, Admin, Op, HalfOp, Voice }: the fields Owner, Admin, Op, HalfOp, Voice; a *ChanPrivs is an option (None = nil) *)
 Definition go_state_ChanPrivs : Type := (bool * bool * bool * bool * bool)%type.
@@ -681,17 +691,31 @@ Definition go_state_ChanPrivs_get_Voice (p : option go_state_ChanPrivs) : res bo
   match p with Some (x1, x2, x3, x4, x5) => Ok x5 | None => Panic end.
 Definition go_state_ChanPrivs_set_Voice (p : option go_state_ChanPrivs) (v : bool) : res (option go_state_ChanPrivs) :=
   match p with Some (x1, x2, x3, x4, x5) => Ok (Some (x1, x2, x3, x4, v)) | None => Panic end.
+Definition go_state_ChanPrivs_eqb (p q : option go_state_ChanPrivs) : bool :=
+  match p, q with
+  | Some (x1, x2, x3, x4, x5), Some (y1, y2, y3, y4, y5) => Bool.eqb x1 y1 && Bool.eqb x2 y2 && Bool.eqb x3 y3 && Bool.eqb x4 y4 && Bool.eqb x5 y5
+  | None, None => true
+  | _, _ => false
+  end.
 
-(* type Channel struct { Name, Topic, Modes, Nicks }: the fields Name, Topic; a *Channel is an option (None = nil) *)
-Definition go_state_Channel : Type := (bytes * bytes)%type.
+(* type Channel struct { Name, Topic, Modes, Nicks }: the fields Name, Topic and one abstract component for the others; a *Channel is an option (None = nil) *)
+Context {go_state_Channel_rest : Type}.
+Variable go_state_Channel_rest_eqb : go_state_Channel_rest -> go_state_Channel_rest -> bool.
+Definition go_state_Channel : Type := (bytes * bytes * go_state_Channel_rest)%type.
 Definition go_state_Channel_get_Name (p : option go_state_Channel) : res bytes :=
-  match p with Some (x1, x2) => Ok x1 | None => Panic end.
+  match p with Some (x1, x2, xr) => Ok x1 | None => Panic end.
 Definition go_state_Channel_set_Name (p : option go_state_Channel) (v : bytes) : res (option go_state_Channel) :=
-  match p with Some (x1, x2) => Ok (Some (v, x2)) | None => Panic end.
+  match p with Some (x1, x2, xr) => Ok (Some (v, x2, xr)) | None => Panic end.
 Definition go_state_Channel_get_Topic (p : option go_state_Channel) : res bytes :=
-  match p with Some (x1, x2) => Ok x2 | None => Panic end.
+  match p with Some (x1, x2, xr) => Ok x2 | None => Panic end.
 Definition go_state_Channel_set_Topic (p : option go_state_Channel) (v : bytes) : res (option go_state_Channel) :=
-  match p with Some (x1, x2) => Ok (Some (x1, v)) | None => Panic end.
+  match p with Some (x1, x2, xr) => Ok (Some (x1, v, xr)) | None => Panic end.
+Definition go_state_Channel_eqb (p q : option go_state_Channel) : bool :=
+  match p, q with
+  | Some (x1, x2, xr), Some (y1, y2, yr) => beq x1 y1 && beq x2 y2 && go_state_Channel_rest_eqb xr yr
+  | None, None => true
+  | _, _ => false
+  end.
 
 (* type Tracker interface of package state: an abstract state ST and one function per method,
    from the state and the arguments to the new state and the result *)
@@ -732,7 +756,6 @@ Arguments go_state_Tracker_String {ST} _.
 Arguments go_state_Tracker_Topic {ST} _.
 Arguments go_state_Tracker_Wipe {ST} _.
 
-Section WithTracker.
 Context {ST : Type}.
 Variable trk : go_state_Tracker ST.
 
@@ -1241,4 +1264,432 @@ Definition go_client_Conn_h_671 (conn_st : option ST) (line_Args : list bytes) :
       (t6 <- elem_at line_Args 1 ;;
       Ok conn_st)).
 
+(* Conn.h_JOIN — client/state_handlers.go *)
+Definition go_client_Conn_h_JOIN (conn_cfg_Me : option go_state_Nick) (conn_st : option ST) (line_Args : list bytes) (line_Host : bytes) (line_Ident : bytes) (line_Nick : bytes) : res (option go_state_Nick * option ST * list bytes) :=
+  let out : list bytes := [] in
+  t1 <- elem_at line_Args 0 ;;
+  p1 <- (match conn_st with None => Panic | Some s_ => let '(s_, r_) := go_state_Tracker_GetChannel trk s_ t1 in Ok (Some s_, r_) end) ;;
+  let '(conn_st, t2) := p1 in
+  let ch : option go_state_Channel := t2 in
+  p2 <- (match conn_st with None => Panic | Some s_ => let '(s_, r_) := go_state_Tracker_GetNick trk s_ line_Nick in Ok (Some s_, r_) end) ;;
+  let '(conn_st, t3) := p2 in
+  let nk : option go_state_Nick := t3 in
+  let k1 := fun (p : option go_state_Nick * option ST * list bytes) =>
+      let '(conn_cfg_Me, conn_st, out) := p in
+      p3 <- (
+          if negb (go_is_some nk) then
+            (p4 <- (match conn_st with None => Panic | Some s_ => let '(s_, r_) := go_state_Tracker_NewNick trk s_ line_Nick in Ok (Some s_, r_) end) ;;
+            let '(conn_st, t4) := p4 in
+            p5 <- (match conn_st with None => Panic | Some s_ => let '(s_, r_) := go_state_Tracker_NickInfo trk s_ line_Nick line_Ident line_Host [] in Ok (Some s_, r_) end) ;;
+            let '(conn_st, t5) := p5 in
+            t6 <- go_client_Conn_Who line_Nick ;;
+            let out : list bytes := out ++ t6 in
+            Ok (conn_st, out))
+          else
+            Ok (conn_st, out)) ;;
+      let '(conn_st, out) := p3 in
+      t7 <- elem_at line_Args 0 ;;
+      p6 <- (match conn_st with None => Panic | Some s_ => let '(s_, r_) := go_state_Tracker_Associate trk s_ t7 line_Nick in Ok (Some s_, r_) end) ;;
+      let '(conn_st, t8) := p6 in
+      Ok (conn_cfg_Me, conn_st, out) in
+  if negb (go_is_some ch) then
+    (p7 <- go_client_Conn_Me conn_cfg_Me conn_st ;;
+    let '(conn_cfg_Me, conn_st, t9) := p7 in
+    if negb (go_state_Nick_eqb t9 nk) then
+      (t10 <- elem_at line_Args 0 ;;
+      Ok (conn_cfg_Me, conn_st, out))
+    else
+      (t11 <- elem_at line_Args 0 ;;
+      p8 <- (match conn_st with None => Panic | Some s_ => let '(s_, r_) := go_state_Tracker_NewChannel trk s_ t11 in Ok (Some s_, r_) end) ;;
+      let '(conn_st, t12) := p8 in
+      t13 <- elem_at line_Args 0 ;;
+      t14 <- go_client_Conn_Mode t13 [] ;;
+      let out : list bytes := out ++ t14 in
+      t15 <- elem_at line_Args 0 ;;
+      t16 <- go_client_Conn_Who t15 ;;
+      let out : list bytes := out ++ t16 in
+      k1 (conn_cfg_Me, conn_st, out)))
+  else
+    k1 (conn_cfg_Me, conn_st, out).
+
+(* Conn.h_MODE — client/state_handlers.go *)
+Definition go_client_Conn_h_MODE (conn_cfg_Me : option go_state_Nick) (conn_st : option ST) (line_Args : list bytes) : res (option go_state_Nick * option ST) :=
+  t1 <- go_client_Line_argslen line_Args 1 ;;
+  if negb t1 then
+    Ok (conn_cfg_Me, conn_st)
+  else
+    (t2 <- elem_at line_Args 0 ;;
+    p1 <- (match conn_st with None => Panic | Some s_ => let '(s_, r_) := go_state_Tracker_GetChannel trk s_ t2 in Ok (Some s_, r_) end) ;;
+    let '(conn_st, t3) := p1 in
+    let ch : option go_state_Channel := t3 in
+    let k1 := fun (p : option go_state_Nick * option ST) =>
+        let '(conn_cfg_Me, conn_st) := p in
+        Ok (conn_cfg_Me, conn_st) in
+    if go_is_some ch then
+      (t4 <- elem_at line_Args 0 ;;
+      t5 <- elem_at line_Args 1 ;;
+      t6 <- elems_from line_Args 2 ;;
+      p2 <- (match conn_st with None => Panic | Some s_ => let '(s_, r_) := go_state_Tracker_ChannelModes trk s_ t4 t5 t6 in Ok (Some s_, r_) end) ;;
+      let '(conn_st, t7) := p2 in
+      k1 (conn_cfg_Me, conn_st))
+    else
+      (t8 <- elem_at line_Args 0 ;;
+      p3 <- (match conn_st with None => Panic | Some s_ => let '(s_, r_) := go_state_Tracker_GetNick trk s_ t8 in Ok (Some s_, r_) end) ;;
+      let '(conn_st, t9) := p3 in
+      let nk : option go_state_Nick := t9 in
+      let k2 := fun (p : option go_state_Nick * option ST) =>
+          let '(conn_cfg_Me, conn_st) := p in
+          k1 (conn_cfg_Me, conn_st) in
+      if go_is_some nk then
+        (p4 <- go_client_Conn_Me conn_cfg_Me conn_st ;;
+        let '(conn_cfg_Me, conn_st, t10) := p4 in
+        if negb (go_state_Nick_eqb t10 nk) then
+          (t11 <- elem_at line_Args 1 ;;
+          t12 <- elem_at line_Args 0 ;;
+          Ok (conn_cfg_Me, conn_st))
+        else
+          (t13 <- elem_at line_Args 0 ;;
+          t14 <- elem_at line_Args 1 ;;
+          p5 <- (match conn_st with None => Panic | Some s_ => let '(s_, r_) := go_state_Tracker_NickModes trk s_ t13 t14 in Ok (Some s_, r_) end) ;;
+          let '(conn_st, t15) := p5 in
+          k2 (conn_cfg_Me, conn_st)))
+      else
+        k2 (conn_cfg_Me, conn_st))).
+
+(* Conn.h_311 — client/state_handlers.go *)
+Definition go_client_Conn_h_311 (conn_cfg_Me : option go_state_Nick) (conn_st : option ST) (line_Args : list bytes) : res (option go_state_Nick * option ST) :=
+  t1 <- go_client_Line_argslen line_Args 5 ;;
+  if negb t1 then
+    Ok (conn_cfg_Me, conn_st)
+  else
+    (t2 <- elem_at line_Args 1 ;;
+    p1 <- (match conn_st with None => Panic | Some s_ => let '(s_, r_) := go_state_Tracker_GetNick trk s_ t2 in Ok (Some s_, r_) end) ;;
+    let '(conn_st, t3) := p1 in
+    let nk : option go_state_Nick := t3 in
+    p2 <- (if go_is_some nk then bind (go_client_Conn_Me conn_cfg_Me conn_st) (fun p_ => let '(conn_cfg_Me, conn_st, t4) := p_ in Ok (conn_cfg_Me, conn_st, (negb (go_state_Nick_eqb t4 nk)))) else Ok (conn_cfg_Me, conn_st, false)) ;;
+    let '(conn_cfg_Me, conn_st, t5) := p2 in
+    conn_st <- (
+        if t5 then
+          (t6 <- elem_at line_Args 1 ;;
+          t7 <- elem_at line_Args 2 ;;
+          t8 <- elem_at line_Args 3 ;;
+          t9 <- elem_at line_Args 5 ;;
+          p3 <- (match conn_st with None => Panic | Some s_ => let '(s_, r_) := go_state_Tracker_NickInfo trk s_ t6 t7 t8 t9 in Ok (Some s_, r_) end) ;;
+          let '(conn_st, t10) := p3 in
+          Ok conn_st)
+        else
+          (t11 <- elem_at line_Args 1 ;;
+          Ok conn_st)) ;;
+    Ok (conn_cfg_Me, conn_st)).
+
+(* Conn.h_352 — client/state_handlers.go *)
+Definition go_client_Conn_h_352 (conn_cfg_Me : option go_state_Nick) (conn_st : option ST) (line_Args : list bytes) : res (option go_state_Nick * option ST) :=
+  t1 <- go_client_Line_argslen line_Args 5 ;;
+  if negb t1 then
+    Ok (conn_cfg_Me, conn_st)
+  else
+    (t2 <- elem_at line_Args 5 ;;
+    p1 <- (match conn_st with None => Panic | Some s_ => let '(s_, r_) := go_state_Tracker_GetNick trk s_ t2 in Ok (Some s_, r_) end) ;;
+    let '(conn_st, t3) := p1 in
+    let nk : option go_state_Nick := t3 in
+    if negb (go_is_some nk) then
+      (t4 <- elem_at line_Args 5 ;;
+      Ok (conn_cfg_Me, conn_st))
+    else
+      (p2 <- go_client_Conn_Me conn_cfg_Me conn_st ;;
+      let '(conn_cfg_Me, conn_st, t5) := p2 in
+      if go_state_Nick_eqb t5 nk then
+        Ok (conn_cfg_Me, conn_st)
+      else
+        (t6 <- elem_at line_Args (llen line_Args - 1) ;;
+        let a : list bytes := split2 t6 [32]%N in
+        t7 <- go_state_Nick_get_Nick nk ;;
+        t8 <- elem_at line_Args 2 ;;
+        t9 <- elem_at line_Args 3 ;;
+        t10 <- elem_at a 1 ;;
+        p3 <- (match conn_st with None => Panic | Some s_ => let '(s_, r_) := go_state_Tracker_NickInfo trk s_ t7 t8 t9 t10 in Ok (Some s_, r_) end) ;;
+        let '(conn_st, t11) := p3 in
+        t12 <- go_client_Line_argslen line_Args 6 ;;
+        if negb t12 then
+          Ok (conn_cfg_Me, conn_st)
+        else
+          (t13 <- elem_at line_Args 6 ;;
+          let idx : Z := index t13 [42]%N in
+          conn_st <- (
+              if negb (idx =? (-1)) then
+                (t14 <- go_state_Nick_get_Nick nk ;;
+                p4 <- (match conn_st with None => Panic | Some s_ => let '(s_, r_) := go_state_Tracker_NickModes trk s_ t14 [43; 111]%N in Ok (Some s_, r_) end) ;;
+                let '(conn_st, t15) := p4 in
+                Ok conn_st)
+              else
+                Ok conn_st) ;;
+          t16 <- elem_at line_Args 6 ;;
+          let idx_1 : Z := index t16 [66]%N in
+          conn_st <- (
+              if negb (idx_1 =? (-1)) then
+                (t17 <- go_state_Nick_get_Nick nk ;;
+                p5 <- (match conn_st with None => Panic | Some s_ => let '(s_, r_) := go_state_Tracker_NickModes trk s_ t17 [43; 66]%N in Ok (Some s_, r_) end) ;;
+                let '(conn_st, t18) := p5 in
+                Ok conn_st)
+              else
+                Ok conn_st) ;;
+          t19 <- elem_at line_Args 6 ;;
+          let idx_2 : Z := index t19 [72]%N in
+          conn_st <- (
+              if negb (idx_2 =? (-1)) then
+                (t20 <- go_state_Nick_get_Nick nk ;;
+                p6 <- (match conn_st with None => Panic | Some s_ => let '(s_, r_) := go_state_Tracker_NickModes trk s_ t20 [43; 105]%N in Ok (Some s_, r_) end) ;;
+                let '(conn_st, t21) := p6 in
+                Ok conn_st)
+              else
+                Ok conn_st) ;;
+          Ok (conn_cfg_Me, conn_st))))).
+
+(* Conn.h_353 — client/state_handlers.go *)
+Definition go_client_Conn_h_353 (conn_st : option ST) (line_Args : list bytes) : res (option ST) :=
+  t1 <- go_client_Line_argslen line_Args 2 ;;
+  if negb t1 then
+    Ok conn_st
+  else
+    (t2 <- elem_at line_Args 2 ;;
+    p1 <- (match conn_st with None => Panic | Some s_ => let '(s_, r_) := go_state_Tracker_GetChannel trk s_ t2 in Ok (Some s_, r_) end) ;;
+    let '(conn_st, t3) := p1 in
+    let ch : option go_state_Channel := t3 in
+    let k1 := fun (conn_st : option ST) =>
+        Ok conn_st in
+    if go_is_some ch then
+      (t4 <- elem_at line_Args (llen line_Args - 1) ;;
+      let nicks : list bytes := split_byte t4 32%N in
+      let fix loop1 (l : list bytes) (conn_st : option ST) {struct l} : res (option ST) :=
+          match l with
+          | [] => Ok conn_st
+          | nick :: l' =>
+              if beq nick [] then
+                loop1 l' conn_st
+              else
+                (c <- byte_at nick 0 ;;
+                p2 <- (
+                    if ((((c =? 126%N)%N || (c =? 38%N)%N) || (c =? 64%N)%N) || (c =? 37%N)%N) || (c =? 43%N)%N then
+                      (nick <- slice_from nick 1 ;;
+                      p3 <- (match conn_st with None => Panic | Some s_ => let '(s_, r_) := go_state_Tracker_GetNick trk s_ nick in Ok (Some s_, r_) end) ;;
+                      let '(conn_st, t7) := p3 in
+                      conn_st <- (
+                          if negb (go_is_some t7) then
+                            (p4 <- (match conn_st with None => Panic | Some s_ => let '(s_, r_) := go_state_Tracker_NewNick trk s_ nick in Ok (Some s_, r_) end) ;;
+                            let '(conn_st, t8) := p4 in
+                            Ok conn_st)
+                          else
+                            Ok conn_st) ;;
+                      t9 <- go_state_Channel_get_Name ch ;;
+                      p5 <- (match conn_st with None => Panic | Some s_ => let '(s_, r_) := go_state_Tracker_IsOn trk s_ t9 nick in Ok (Some s_, r_) end) ;;
+                      let '(conn_st, t10) := p5 in
+                      let '(_, ok) := t10 in
+                      conn_st <- (
+                          if negb ok then
+                            (t11 <- go_state_Channel_get_Name ch ;;
+                            p6 <- (match conn_st with None => Panic | Some s_ => let '(s_, r_) := go_state_Tracker_Associate trk s_ t11 nick in Ok (Some s_, r_) end) ;;
+                            let '(conn_st, t12) := p6 in
+                            Ok conn_st)
+                          else
+                            Ok conn_st) ;;
+                      conn_st <- (
+                          if (c =? 126%N)%N then
+                            (t13 <- go_state_Channel_get_Name ch ;;
+                            p7 <- (match conn_st with None => Panic | Some s_ => let '(s_, r_) := go_state_Tracker_ChannelModes trk s_ t13 [43; 113]%N [nick] in Ok (Some s_, r_) end) ;;
+                            let '(conn_st, t14) := p7 in
+                            Ok conn_st)
+                          else
+                            (if (c =? 38%N)%N then
+                              (t15 <- go_state_Channel_get_Name ch ;;
+                              p8 <- (match conn_st with None => Panic | Some s_ => let '(s_, r_) := go_state_Tracker_ChannelModes trk s_ t15 [43; 97]%N [nick] in Ok (Some s_, r_) end) ;;
+                              let '(conn_st, t16) := p8 in
+                              Ok conn_st)
+                            else
+                              (if (c =? 64%N)%N then
+                                (t17 <- go_state_Channel_get_Name ch ;;
+                                p9 <- (match conn_st with None => Panic | Some s_ => let '(s_, r_) := go_state_Tracker_ChannelModes trk s_ t17 [43; 111]%N [nick] in Ok (Some s_, r_) end) ;;
+                                let '(conn_st, t18) := p9 in
+                                Ok conn_st)
+                              else
+                                (if (c =? 37%N)%N then
+                                  (t19 <- go_state_Channel_get_Name ch ;;
+                                  p10 <- (match conn_st with None => Panic | Some s_ => let '(s_, r_) := go_state_Tracker_ChannelModes trk s_ t19 [43; 104]%N [nick] in Ok (Some s_, r_) end) ;;
+                                  let '(conn_st, t20) := p10 in
+                                  Ok conn_st)
+                                else
+                                  (if (c =? 43%N)%N then
+                                    (t21 <- go_state_Channel_get_Name ch ;;
+                                    p11 <- (match conn_st with None => Panic | Some s_ => let '(s_, r_) := go_state_Tracker_ChannelModes trk s_ t21 [43; 118]%N [nick] in Ok (Some s_, r_) end) ;;
+                                    let '(conn_st, t22) := p11 in
+                                    Ok conn_st)
+                                  else
+                                    Ok conn_st))))) ;;
+                      Ok (nick, conn_st))
+                    else
+                      (p12 <- (match conn_st with None => Panic | Some s_ => let '(s_, r_) := go_state_Tracker_GetNick trk s_ nick in Ok (Some s_, r_) end) ;;
+                      let '(conn_st, t23) := p12 in
+                      conn_st <- (
+                          if negb (go_is_some t23) then
+                            (p13 <- (match conn_st with None => Panic | Some s_ => let '(s_, r_) := go_state_Tracker_NewNick trk s_ nick in Ok (Some s_, r_) end) ;;
+                            let '(conn_st, t24) := p13 in
+                            Ok conn_st)
+                          else
+                            Ok conn_st) ;;
+                      t25 <- go_state_Channel_get_Name ch ;;
+                      p14 <- (match conn_st with None => Panic | Some s_ => let '(s_, r_) := go_state_Tracker_IsOn trk s_ t25 nick in Ok (Some s_, r_) end) ;;
+                      let '(conn_st, t26) := p14 in
+                      let '(_, ok_1) := t26 in
+                      conn_st <- (
+                          if negb ok_1 then
+                            (t27 <- go_state_Channel_get_Name ch ;;
+                            p15 <- (match conn_st with None => Panic | Some s_ => let '(s_, r_) := go_state_Tracker_Associate trk s_ t27 nick in Ok (Some s_, r_) end) ;;
+                            let '(conn_st, t28) := p15 in
+                            Ok conn_st)
+                          else
+                            Ok conn_st) ;;
+                      conn_st <- (
+                          if (c =? 126%N)%N then
+                            (t29 <- go_state_Channel_get_Name ch ;;
+                            p16 <- (match conn_st with None => Panic | Some s_ => let '(s_, r_) := go_state_Tracker_ChannelModes trk s_ t29 [43; 113]%N [nick] in Ok (Some s_, r_) end) ;;
+                            let '(conn_st, t30) := p16 in
+                            Ok conn_st)
+                          else
+                            (if (c =? 38%N)%N then
+                              (t31 <- go_state_Channel_get_Name ch ;;
+                              p17 <- (match conn_st with None => Panic | Some s_ => let '(s_, r_) := go_state_Tracker_ChannelModes trk s_ t31 [43; 97]%N [nick] in Ok (Some s_, r_) end) ;;
+                              let '(conn_st, t32) := p17 in
+                              Ok conn_st)
+                            else
+                              (if (c =? 64%N)%N then
+                                (t33 <- go_state_Channel_get_Name ch ;;
+                                p18 <- (match conn_st with None => Panic | Some s_ => let '(s_, r_) := go_state_Tracker_ChannelModes trk s_ t33 [43; 111]%N [nick] in Ok (Some s_, r_) end) ;;
+                                let '(conn_st, t34) := p18 in
+                                Ok conn_st)
+                              else
+                                (if (c =? 37%N)%N then
+                                  (t35 <- go_state_Channel_get_Name ch ;;
+                                  p19 <- (match conn_st with None => Panic | Some s_ => let '(s_, r_) := go_state_Tracker_ChannelModes trk s_ t35 [43; 104]%N [nick] in Ok (Some s_, r_) end) ;;
+                                  let '(conn_st, t36) := p19 in
+                                  Ok conn_st)
+                                else
+                                  (if (c =? 43%N)%N then
+                                    (t37 <- go_state_Channel_get_Name ch ;;
+                                    p20 <- (match conn_st with None => Panic | Some s_ => let '(s_, r_) := go_state_Tracker_ChannelModes trk s_ t37 [43; 118]%N [nick] in Ok (Some s_, r_) end) ;;
+                                    let '(conn_st, t38) := p20 in
+                                    Ok conn_st)
+                                  else
+                                    Ok conn_st))))) ;;
+                      Ok (nick, conn_st))) ;;
+                let '(nick, conn_st) := p2 in
+                loop1 l' conn_st)
+          end in
+      conn_st <- loop1 nicks conn_st ;;
+      k1 conn_st)
+    else
+      (t39 <- elem_at line_Args 2 ;;
+      k1 conn_st)).
+
+(* type NickMode struct { Bot, Invisible, Oper, WallOps, HiddenHost, SSL }: the fields Bot, Invisible, Oper, WallOps, HiddenHost, SSL; a *NickMode is an option (None = nil) *)
+Definition go_state_NickMode : Type := (bool * bool * bool * bool * bool * bool)%type.
+Definition go_state_NickMode_get_Bot (p : option go_state_NickMode) : res bool :=
+  match p with Some (x1, x2, x3, x4, x5, x6) => Ok x1 | None => Panic end.
+Definition go_state_NickMode_set_Bot (p : option go_state_NickMode) (v : bool) : res (option go_state_NickMode) :=
+  match p with Some (x1, x2, x3, x4, x5, x6) => Ok (Some (v, x2, x3, x4, x5, x6)) | None => Panic end.
+Definition go_state_NickMode_get_Invisible (p : option go_state_NickMode) : res bool :=
+  match p with Some (x1, x2, x3, x4, x5, x6) => Ok x2 | None => Panic end.
+Definition go_state_NickMode_set_Invisible (p : option go_state_NickMode) (v : bool) : res (option go_state_NickMode) :=
+  match p with Some (x1, x2, x3, x4, x5, x6) => Ok (Some (x1, v, x3, x4, x5, x6)) | None => Panic end.
+Definition go_state_NickMode_get_Oper (p : option go_state_NickMode) : res bool :=
+  match p with Some (x1, x2, x3, x4, x5, x6) => Ok x3 | None => Panic end.
+Definition go_state_NickMode_set_Oper (p : option go_state_NickMode) (v : bool) : res (option go_state_NickMode) :=
+  match p with Some (x1, x2, x3, x4, x5, x6) => Ok (Some (x1, x2, v, x4, x5, x6)) | None => Panic end.
+Definition go_state_NickMode_get_WallOps (p : option go_state_NickMode) : res bool :=
+  match p with Some (x1, x2, x3, x4, x5, x6) => Ok x4 | None => Panic end.
+Definition go_state_NickMode_set_WallOps (p : option go_state_NickMode) (v : bool) : res (option go_state_NickMode) :=
+  match p with Some (x1, x2, x3, x4, x5, x6) => Ok (Some (x1, x2, x3, v, x5, x6)) | None => Panic end.
+Definition go_state_NickMode_get_HiddenHost (p : option go_state_NickMode) : res bool :=
+  match p with Some (x1, x2, x3, x4, x5, x6) => Ok x5 | None => Panic end.
+Definition go_state_NickMode_set_HiddenHost (p : option go_state_NickMode) (v : bool) : res (option go_state_NickMode) :=
+  match p with Some (x1, x2, x3, x4, x5, x6) => Ok (Some (x1, x2, x3, x4, v, x6)) | None => Panic end.
+Definition go_state_NickMode_get_SSL (p : option go_state_NickMode) : res bool :=
+  match p with Some (x1, x2, x3, x4, x5, x6) => Ok x6 | None => Panic end.
+Definition go_state_NickMode_set_SSL (p : option go_state_NickMode) (v : bool) : res (option go_state_NickMode) :=
+  match p with Some (x1, x2, x3, x4, x5, x6) => Ok (Some (x1, x2, x3, x4, x5, v)) | None => Panic end.
+Definition go_state_NickMode_eqb (p q : option go_state_NickMode) : bool :=
+  match p, q with
+  | Some (x1, x2, x3, x4, x5, x6), Some (y1, y2, y3, y4, y5, y6) => Bool.eqb x1 y1 && Bool.eqb x2 y2 && Bool.eqb x3 y3 && Bool.eqb x4 y4 && Bool.eqb x5 y5 && Bool.eqb x6 y6
+  | None, None => true
+  | _, _ => false
+  end.
+
+(* nick.parseModes — state/nick.go *)
+Definition go_state_nick_parseModes (nk_modes : option go_state_NickMode) (modes : bytes) : res (option go_state_NickMode) :=
+  let modeop : bool := false in
+  let i : Z := 0 in
+  let fix loop1 (fuel : nat) (modeop : bool) (i : Z) (nk_modes : option go_state_NickMode) {struct fuel} : res (bool * Z * option go_state_NickMode) :=
+      if i <? len modes then
+        (match fuel with
+        | O => Panic
+        | S fuel' =>
+            m <- byte_at modes i ;;
+            p1 <- (
+                if (m =? 43%N)%N then
+                  (let modeop : bool := true in
+                  Ok (modeop, nk_modes))
+                else
+                  (p2 <- (
+                      if (m =? 45%N)%N then
+                        (let modeop : bool := false in
+                        Ok (modeop, nk_modes))
+                      else
+                        (nk_modes <- (
+                            if (m =? 66%N)%N then
+                              go_state_NickMode_set_Bot nk_modes modeop
+                            else
+                              (if (m =? 105%N)%N then
+                                go_state_NickMode_set_Invisible nk_modes modeop
+                              else
+                                (if (m =? 111%N)%N then
+                                  go_state_NickMode_set_Oper nk_modes modeop
+                                else
+                                  (if (m =? 119%N)%N then
+                                    go_state_NickMode_set_WallOps nk_modes modeop
+                                  else
+                                    (if (m =? 120%N)%N then
+                                      go_state_NickMode_set_HiddenHost nk_modes modeop
+                                    else
+                                      (if (m =? 122%N)%N then
+                                        go_state_NickMode_set_SSL nk_modes modeop
+                                      else
+                                        Ok nk_modes)))))) ;;
+                        Ok (modeop, nk_modes))) ;;
+                  let '(modeop, nk_modes) := p2 in
+                  Ok (modeop, nk_modes))) ;;
+            let '(modeop, nk_modes) := p1 in
+            let i : Z := i + 1 in
+            loop1 fuel' modeop i nk_modes
+        end)
+      else
+        Ok (modeop, i, nk_modes) in
+  p3 <- loop1 (S (length modes)) modeop i nk_modes ;;
+  let '(modeop, i, nk_modes) := p3 in
+  Ok nk_modes.
+
 End WithTracker.
+Arguments go_state_Tracker_Associate {go_state_Nick_rest go_state_Channel_rest ST} _.
+Arguments go_state_Tracker_ChannelModes {go_state_Nick_rest go_state_Channel_rest ST} _.
+Arguments go_state_Tracker_DelChannel {go_state_Nick_rest go_state_Channel_rest ST} _.
+Arguments go_state_Tracker_DelNick {go_state_Nick_rest go_state_Channel_rest ST} _.
+Arguments go_state_Tracker_Dissociate {go_state_Nick_rest go_state_Channel_rest ST} _.
+Arguments go_state_Tracker_GetChannel {go_state_Nick_rest go_state_Channel_rest ST} _.
+Arguments go_state_Tracker_GetNick {go_state_Nick_rest go_state_Channel_rest ST} _.
+Arguments go_state_Tracker_IsOn {go_state_Nick_rest go_state_Channel_rest ST} _.
+Arguments go_state_Tracker_Me {go_state_Nick_rest go_state_Channel_rest ST} _.
+Arguments go_state_Tracker_NewChannel {go_state_Nick_rest go_state_Channel_rest ST} _.
+Arguments go_state_Tracker_NewNick {go_state_Nick_rest go_state_Channel_rest ST} _.
+Arguments go_state_Tracker_NickInfo {go_state_Nick_rest go_state_Channel_rest ST} _.
+Arguments go_state_Tracker_NickModes {go_state_Nick_rest go_state_Channel_rest ST} _.
+Arguments go_state_Tracker_ReNick {go_state_Nick_rest go_state_Channel_rest ST} _.
+Arguments go_state_Tracker_String {go_state_Nick_rest go_state_Channel_rest ST} _.
+Arguments go_state_Tracker_Topic {go_state_Nick_rest go_state_Channel_rest ST} _.
+Arguments go_state_Tracker_Wipe {go_state_Nick_rest go_state_Channel_rest ST} _.
